@@ -126,6 +126,8 @@ M = [
   "            .take_while(|&(i, (ref info, _))| {\n                i < subimage.nb_meta_channels\n                    || (info.width < group_dim && info.height <= group_dim)"),
  ("c19_transfer_function_codes_crossed", "C19", "try_from:TransferFunction", "crates/jxl-image/src/color.rs",
   "            17 => Self::Dci,\n            18 => Self::Hlg,", "            17 => Self::Hlg,\n            18 => Self::Dci,"),
+ ("c11_lf_group_forgives_when_loaded", "C11", "polarity:", "crates/jxl-frame/src/lib.rs",
+  "                Err(e) if !loaded && e.unexpected_eof() => None,", "                Err(e) if loaded && e.unexpected_eof() => None,"),
  ("c09_eof_exit_without_carry", "C09", "return-without-carry", "crates/jxl-oxide/src/lib.rs",
   "                Err(e) if e.unexpected_eof() => {\n                    self.buffer = buf.to_vec();\n                    return Ok(());\n                }\n                Err(e) => {\n                    return Err(e.into());\n                }\n            };\n            let frame_index = frame.index();",
   "                Err(e) if e.unexpected_eof() => {\n                    return Ok(());\n                }\n                Err(e) => {\n                    return Err(e.into());\n                }\n            };\n            let frame_index = frame.index();"),
